@@ -23,6 +23,7 @@ from typing import Any, Dict, List, Optional, Set, Tuple
 from .. import rx
 from ..core import AnalysisError, ClassInfo, Ctx, FuncInfo, body_without_docstring, calls_in, dotted, kwarg, norm, walk_no_nested
 from ..decide import A, f_eval, path_formula, paths_of, valuations
+from ..fold import Sym
 from ..peg import Grammar
 from .c03 import Automaton
 
@@ -131,6 +132,81 @@ def rule_r1(ctx: Ctx) -> None:
     for prop, want_e in (("path", "self._path"), ("line", "self._line")):
         e = trivial_property_expr(repo, err, prop)
         ctx.check(e is not None and norm(e) == want_e, err.short + "." + prop, norm(e) if e is not None else "?", "accessor returns the stored location", err.module.relpath, nontrivial=False)
+
+
+class _Tok(Sym):
+    """an opaque, truthy context value (`pr.current_line_number`, `self.file_path`, ...): named by how it was reached"""
+
+    def __init__(self, name: str):
+        super().__init__()
+        self.__dict__["_name"] = name
+
+    def __getattr__(self, a: str) -> Any:
+        if a.startswith("__"):
+            raise AttributeError(a)
+        return _Tok(self._name + "." + a)
+
+    def __repr__(self) -> str:
+        return "<%s>" % self._name
+
+
+def rule_r7(ctx: Ctx) -> None:
+    """composition of the location stamps along the propagation path, on the repository's own Error class"""
+    from ..absint import Evaluator, Raised, construct
+    from ..fold import Folder, Unfoldable
+
+    ctx.rule("C17.R7", "a line is stamped only on an error whose file is not yet known (an error that arrives with the path of another file - a dependency - never gets a line of this file); a path is stamped only when unknown; a known line is never changed", min_instances=4)
+    err = ctx.cls("_error.Error")
+    OTHER = "/deps/Other.1.0.dsdl"
+    n = 0
+    seen: Set[Tuple[str, int]] = set()
+    for mod_name in ("_parser", "_dsdl_definition", "_namespace_reader", "_data_type_builder"):
+        mod = ctx.repo.module(mod_name)
+        fns = list(mod.functions.values()) + [m for c in mod.classes.values() for m in c.methods.values()]
+        # a handler is reported once, at the function that lexically contains it (helpers are expanded into their callers)
+        fns.sort(key=lambda f: 0 if any(isinstance(x, ast.ExceptHandler) for x in ast.walk(f.node)) else 1)
+        for fn in fns:
+            for tr, h in _handlers_for(ctx, fn, "Error"):
+                if (mod.relpath, h.lineno) in seen:
+                    continue
+                own = any(isinstance(x, ast.ExceptHandler) and x.lineno == h.lineno for x in ast.walk(fn.node))
+                if not own and any(any(isinstance(x, ast.ExceptHandler) and x.lineno == h.lineno for x in ast.walk(g.node)) for g in fns):
+                    continue
+                seen.add((mod.relpath, h.lineno))
+                if not h.name or not any(isinstance(c, ast.Call) and isinstance(c.func, ast.Attribute) and c.func.attr == "set_error_location_if_unknown" for s_ in h.body for c in ast.walk(s_)):
+                    continue
+                results = {}
+                for label, (p0, l0) in {"fresh": (None, None), "from another file, no line": (OTHER, None), "from another file, with line": (OTHER, 7), "line known, file not yet": (None, 3)}.items():
+                    ex = construct(ctx, err, "text", p0, l0)
+                    env: Dict[str, Any] = {h.name: ex}
+                    for nm in {x.id for s_ in h.body for x in ast.walk(s_) if isinstance(x, ast.Name)} - {h.name}:
+                        env[nm] = _Tok(nm)
+                    try:
+                        Evaluator(env, ctx.repo, fn.module, fn.cls, None).run(list(h.body))
+                    except Raised:
+                        pass
+                    except Unfoldable as exn:
+                        raise AnalysisError("%s: cannot evaluate the handler over an abstract error: %s" % (fn.short, exn))
+                    f = Folder({"e": ex}, ctx.repo, err.module, err, None)
+                    results[label] = (f.fold(ast.parse("e.path", mode="eval").body), f.fold(ast.parse("e.line", mode="eval").body))
+                    ctx.count()
+                bad = []
+                fp, fl = results["fresh"]
+                stamps_line, stamps_path = fl is not None, fp is not None
+                op, ol = results["from another file, no line"]
+                if op != OTHER:
+                    bad.append({"incoming": "path of another file, no line", "path after": repr(op)})
+                if ol is not None:
+                    bad.append({"incoming": "path of another file (a dependency), no line", "line after": repr(ol), "expected": "still unknown: the line of this file means nothing in the other file"})
+                if results["from another file, with line"] != (OTHER, 7):
+                    bad.append({"incoming": "path and line of another file", "after": repr(results["from another file, with line"])})
+                if results["line known, file not yet"][1] != 3:
+                    bad.append({"incoming": "line 3, no path", "line after": repr(results["line known, file not yet"][1])})
+                n += 1
+                ctx.check(not bad, fn.short, "handler stamping %s" % " and ".join(x for x, y in (("the line", stamps_line), ("the path", stamps_path)) if y), "the (path, line) pair of an error always refers to one file: a stamp never completes the location of another file with a value from this one", "%s:%d" % (fn.module.relpath, h.lineno), bad)
+    if n < 4:
+        raise AnalysisError("only %d location-stamping handlers found" % n)
+
 
 
 def rule_r2(ctx: Ctx, a: Automaton) -> None:
@@ -497,6 +573,7 @@ def run(ctx: Ctx) -> None:
     a.explore()
     ctx.analysed["automaton"] = {"states": len(a.states_seen), "transitions": a.transitions, "commit_executions": len(a.commits)}
     ctx.attempt(rule_r1, ctx)
+    ctx.attempt(rule_r7, ctx)
     ctx.attempt(rule_r2, ctx, a)
     ctx.attempt(rule_r3_r4, ctx, a)
     ctx.attempt(rule_r5_r6, ctx)
